@@ -8,7 +8,7 @@ def run(ctx):
     n, bad, lines = ctx.check_records("Fn_Corrupt", os.path.join(out, "recs.ndjson"))
     for i in bad[:200]:
         r = json.loads(lines[i - 1])
-        what = "different-plaintext-returned" if "different" in r["outcomes"] else "check-read-data-silent"
+        what = "different-plaintext-returned" if "different" in r["outcomes"] else ("restore-wrong-item-not-reported" if "different-unreported" in r["outcomes"] else "check-read-data-silent")
         ctx.violate("corruption/%s/%s/%s%s" % (r["class"], r["kind"], what, "/with-duplicate" if r["dup"] else ""),
                     "scenario %s: %s of %s at offset %s/%s: check_err=%s outcomes=%s" % (r["scenario"], r["kind"], r["class"], r["off"], r["size"], r["check_err"], r["outcomes"]), r)
     res = ctx.go_results[-1]
